@@ -355,3 +355,28 @@ PROPS["C09"] = dict(
     stages=[Stage("c09", variant="rel", kind="sharded", n=(1200, 30000), timeout=(600, 3600)),
             Stage("c09", variant="chk", kind="sharded", n=(300, 3000), timeout=(600, 3600))],
 )
+
+STARK_RULE = ("random GenAir instances (trace length 2^3..2^9 (thorough 2^12), main width 1..12, 1..width transition constraints of "
+              "degree 1..8 with periodic factors, rotation columns, free columns, 1..n/2+1 transition exemptions, auxiliary "
+              "segment with 0..4 random elements, single / periodic / sequence assertions incl. >= 64 values, metadata) x 11 "
+              "field/hasher pairs x random valid options (3 extensions, 9 batching pairs, blowup up to 128, folding 2..16, "
+              "remainder degree 0..255, 1..255 queries, grinding 0..12, partitions 1..16 x hash rate 1..255)")
+
+PROPS["C01"] = dict(
+    level="exploration",
+    rule=STARK_RULE + "; the independent checker confirms the statement is true; prove, verify under OptionSet([own options]), "
+         "decode(to_bytes) == proof and verifies; plus directed corners (255 unique queries on a 2^19 LDE domain, 2 / 3 / 33 "
+         "exemptions, width up to 255, smallest trace, long sequence assertions, high-degree aux+periodic); also under "
+         "debug assertions / overflow checks and in the concurrent build; distinct = instance descriptions",
+    assumptions=["configuration validity predicate of DESIGN.md 4.3 (options accepted by ProofOptions::new, blowup >= AIR minimum, "
+                 "queries < LDE domain size, realisable FRI geometry, LDE domain <= 2^22)",
+                 "traces are generated from the recurrence from a random first row (full-degree columns), so the prover's "
+                 "degree self-checks are not tripped by degenerate traces",
+                 "in the debug-assertion build only instances with exact declared degrees and a tight evaluation domain are "
+                 "generated (no rotation columns as factors or with > 1 exemption): winterfell's debug self-checks demand this "
+                 "of the AIR author, so tripping them is not a completeness failure"],
+    floor=100,
+    stages=[Stage("c01", pkg="mon_stark", variant="rel", kind="sharded", n=(500, 20000), timeout=(900, 3600)),
+            Stage("c01", pkg="mon_stark", variant="chk", kind="sharded", n=(160, 3000), timeout=(900, 3600), args=["--exact", "1"]),
+            Stage("c01", pkg="mon_stark", variant="par", kind="sharded", n=(120, 2000), timeout=(900, 3600), threads=4, args=["--maxlogn", "12"])],
+)
